@@ -273,7 +273,9 @@ def validate(ctx, module, trace_path, cfg=None, timeout=1800, deque=False, env=N
     if rc == 124:
         raise Infra("TLC timeout validating %s with %s" % (trace_path, module))
     if not _HW.search(out.replace("\n<<", "\n<<")) and v.n == 0:
-        raise Infra("trace validator %s did not reach its postcondition:\n%s" % (module, out[-3000:]))
+        ei = out.find("Error:")
+        raise Infra("trace validator %s did not reach its postcondition:\n%s" % (
+            module, out[ei:ei + 2500] if ei >= 0 else out[-3000:]))
     v.accepted = (v.hw == v.n + 1) and "is false" not in out and "Error:" not in out
     if not v.accepted and v.hw == v.n + 1:
         raise Infra("trace validator %s consumed the trace but TLC reported an error:\n%s" % (module, out[-3000:]))
@@ -311,7 +313,12 @@ def harness_files(pkg_rel, pkgname, files, common=True):
     """Standard overlay mapping for harness files living in /verif/harness/<pkg_rel>/ ."""
     m = {}
     for fn in files:
-        m[os.path.join(pkg_rel, fn)] = os.path.join(VERIF, "harness", pkg_rel, fn)
+        if fn.startswith("common:"):       # a shared template from harness/common, package clause substituted
+            base = fn[len("common:"):]
+            m[os.path.join(pkg_rel, base[:-4] if base.endswith(".tpl") else base)] = (
+                os.path.join(VERIF, "harness", "common", base), pkgname)
+        else:
+            m[os.path.join(pkg_rel, fn)] = os.path.join(VERIF, "harness", pkg_rel, fn)
     if common:
         m[os.path.join(pkg_rel, "zz_verif_common_test.go")] = (
             os.path.join(VERIF, "harness", "common", "zz_verif_common_test.go.tpl"), pkgname)
